@@ -37,11 +37,25 @@ fn step(s: &dyn Subject, k: usize, v: &Value, rep: &mut DeclReport) -> Option<Re
                 other => Err(other.show()),
             })
         }
+        4 | 5 | 6 => {
+            // Serialize -> Deserialize in one format; precondition: the inner value itself survives that format
+            let f = [crate::subject::Fmt::Json, crate::subject::Fmt::Ron, crate::subject::Fmt::MsgPack][k - 4];
+            let o = s.ser(f, v)?;
+            match o.inner_roundtrip? {
+                Ok(back) if back == *v => {}
+                _ => {
+                    rep.guard("serde_precondition_failed(skipped)");
+                    return None;
+                }
+            }
+            o.t_roundtrip
+        }
         _ => None,
     }
 }
 
-const STEP_NAMES: [&str; 4] = ["into_inner->try_new/new", "into_inner->TryFrom", "into_inner->From", "Display->FromStr"];
+const STEP_NAMES: [&str; 7] = ["into_inner->try_new/new", "into_inner->TryFrom", "into_inner->From", "Display->FromStr", "Serialize->Deserialize(JSON)", "Serialize->Deserialize(RON)",
+    "Serialize->Deserialize(MessagePack)"];
 
 pub fn run(s: &dyn Subject, ctx: &Ctx) -> Option<DeclReport> {
     let spec = s.spec();
@@ -134,7 +148,7 @@ pub fn run(s: &dyn Subject, ctx: &Ctx) -> Option<DeclReport> {
             rep.class("value-unchanged");
         }
         // every single step from v
-        for k in 0..4 {
+        for k in 0..7 {
             if let Some(r) = step(s, k, &v, &mut rep) {
                 rep.executions += 1;
                 rep.bump(STEP_NAMES[k]);
@@ -150,7 +164,7 @@ pub fn run(s: &dyn Subject, ctx: &Ctx) -> Option<DeclReport> {
             let mut cur = v.clone();
             let mut path = Vec::new();
             for _ in 0..chain_len {
-                let k = rng.below(4) as usize;
+                let k = rng.below(7) as usize;
                 if let Some(r) = step(s, k, &cur, &mut rep) {
                     rep.executions += 1;
                     path.push(STEP_NAMES[k]);
